@@ -85,10 +85,11 @@ PROPS = {
     ),
     "C13": dict(
         crate="mon_board", cmd="c13", level="exploration",
-        floors={"quick": {"strings_legal": 10000, "strings_pseudo-legal-illegal": 300, "strings_other": 100000, "positions_with_complete_move_string_space": 40, "lists_with_fault": 300, "lists_all_legal": 100, "uci_to_pgn_calls": 5000, "pgn_to_bb_calls": 5000}},
+        also_build=["mon_engine"], extra_monitors=[{"crate": "mon_engine", "cmd": "c13e", "shards": 8}],
+        floors={"quick": {"strings_legal": 10000, "strings_pseudo-legal-illegal": 300, "strings_other": 100000, "positions_with_complete_move_string_space": 40, "lists_with_fault": 300, "lists_all_legal": 100, "uci_to_pgn_calls": 5000, "pgn_to_bb_calls": 5000, "rejected_position_commands": 1000}},
         rule="at stream positions: all pseudo-legal moves, promotion strings with missing/wrong suffix, random squares, mutants and malformed strings are passed to find_uci and make_uci; verdict compared with reference legality, full snapshot compared before/after, successor compared with the reference; "
              "at sampled positions (all seeds first) the complete 64x64x{none,q,r,b,n,k} string space; make_all_uci on reference lines of 1-80 moves with one fault injected at a uniformly chosen index (illegal pseudo-legal move, other side's move, garbage, 0000) must be all-or-nothing, also when repeated; "
-             "uci_to_pgn / pgn_to_bb with illegal, unknown or malformed arguments must leave the snapshot unchanged; distinct_nontrivial = distinct position keys probed + distinct (position, fault index) pairs",
+             "uci_to_pgn / pgn_to_bb with illegal, unknown or malformed arguments must leave the snapshot unchanged; engine boundary (the caller named in the property): after an accepted `position` command, a `position` command whose move list repeats the accepted moves, adds 0-3 legal moves and then a move that is not legal must leave the engine's position untouched (next `go depth 1` legal in the held position, depth-1 score and board dump equal to a fresh engine's); distinct_nontrivial = distinct position keys probed + distinct (position, fault index) pairs",
         assumptions=BASE_ASSUME + ["move strings padded with white space are trimmed by the code; their verdict is unspecified and only side effects are checked"],
     ),
     "C14": dict(
@@ -109,7 +110,7 @@ PROPS = {
     ),
     "C17": dict(
         crate="mon_text", cmd="c17", level="exploration",
-        floors={"quick": {"games": 5000, "castling_moves": 500, "databases_with_unnumbered_black_castling": 50, "games_without_comments": 1000, "games_with_comments": 1000, "result_*": 5000, "layout_final_newline_false": 200, "reader_mode_1": 1000, "reader_mode_2": 1000, "reader_mode_3": 1000, "games_replayed_on_board": 5000}},
+        floors={"quick": {"games": 5000, "castling_moves": 500, "databases_with_unnumbered_black_castling": 50, "games_without_comments": 1000, "games_with_comments": 1000, "result_*": 5000, "layout_final_newline_false": 200, "reader_mode_1": 1000, "reader_mode_2": 1000, "reader_mode_3": 1000, "games_replayed_on_board": 5000, "games_with_256_or_more_full_moves": 50}},
         rule="databases of 1-12 games (reference walks from the start position, SAN from the reference writer, 7-18 Lichess-style tag lines, no / clock / eval+clock / mixed comments with Lichess's `n...` numbering of Black's move after a comment, all four result tokens, with/without final newline, 1-2 blank lines between games) rendered by the monitor's writer; "
              "each database read under 20 (thorough: 40) reader configurations: chunk sizes {1,2,3,5,7,8,13,64,1000,8192,|D|-1,|D|,|D|+1} x readers that return full reads / random short reads / one byte at a time / short reads aligned just before or after every delimiter; "
              "yielded games compared with the written ones (count, tag map, SAN texts in order, exact comment text, no Err items), and replayed through pgn_to_bb + make to the reference end position; distinct_nontrivial = distinct (database, configuration) pairs with >= 2 games and >= 1 castling move",
@@ -175,10 +176,10 @@ PROPS = {
     ),
     "C16": dict(
         crate="mon_engine", cmd="c16", level="exploration", needs_app=True,
-        floors={"quick": {"sessions": 60, "app_sessions": 30, "lines_info": 3000, "lines_bestmove": 800, "lines_id": 60, "lines_readyok": 30, "pvs_validated": 5000, "searches_judged": 1500, "cycles_where_opponent_played_the_ponder_move": 300, "go_infinite": 150, "go_clock": 150, "go_movetime": 150, "go_depth": 300}},
+        floors={"quick": {"sessions": 60, "app_sessions": 30, "lines_info": 3000, "lines_bestmove": 800, "lines_id": 60, "lines_readyok": 30, "pvs_validated": 5000, "searches_judged": 1500, "cycles_where_opponent_played_the_ponder_move": 300, "root_session_searches": 200, "searches_from_roots_that_occurred_before": 20, "output_stress_sessions": 16, "stress_lines_readyok": 10000, "stress_lines_info": 2000, "go_infinite": 150, "go_clock": 150, "go_movetime": 150, "go_depth": 300}},
         rule="whole sessions of 5-40 position/go cycles on one process: the engine plays its own bestmove and the opponent answers with the ponder move (60%, PV-continuation path) or a random legal move (diverged path), with/without ucinewgame, mixed limits (depth 1-4, movetime, clocks, infinite+stop), uci / isready / debug on|off interleaved; "
              "half of the sessions through the shipped binary (every stdout line after the banner validated against the monitor's own UCI engine-to-GUI grammar), half in-process (typed events); per search: depth / nodes / time never decrease, every reported PV is a legal line from the searched position per the reference, "
-             "bestmove = first and ponder = second move of the last reported PV (ponder absent iff the PV has one move; no move announced if no PV was reported); distinct_nontrivial = distinct (root key, final PV) pairs",
+             "bestmove = first and ponder = second move of the last reported PV (ponder absent iff the PV has one move; no move announced if no PV was reported); sessions of unrelated roots as in C07 (recurring positions, mate / stalemate roots) searched to depth 2-5; output-stream stress on the hooked binary: the search thread prints an info line every 50 nodes while the main thread answers a burst of 800-2000 isready / uci commands - every line must be one intact message and every isready answered exactly once; distinct_nontrivial = distinct (root key, final PV) pairs",
         assumptions=BASE_ASSUME,
     ),
     "C18": dict(
